@@ -231,6 +231,7 @@ func c19Analyse(c *Ctx, p *Program) {
 					}
 					n1++
 					fields := indexFields(p, fn, x.Index, 0, map[ssa.Value]bool{})
+					addBaseFields(p, fn, x.X, fields, 0)
 					c19Report(c, p, fn, x.Pos(), "index", fields, seenKey)
 				case *ssa.Slice:
 					if !pix[x.X] || (x.Low == nil && x.High == nil) {
@@ -243,6 +244,7 @@ func c19Analyse(c *Ctx, p *Program) {
 						fields = indexFields(p, fn, x.High, 0, map[ssa.Value]bool{})
 					}
 					n1++
+					addBaseFields(p, fn, x.X, fields, 0)
 					c19Report(c, p, fn, x.Pos(), "slice", fields, seenKey)
 				}
 			}
@@ -508,4 +510,49 @@ func writesThroughParam(fn *ssa.Function, idx, depth int) bool {
 		}
 	}
 	return false
+}
+
+// addBaseFields: an address into a sub-slice (row := pix[off:...]; row[i]) also depends on what the
+// sub-slice's own lower bound depends on.
+func addBaseFields(p *Program, fn *ssa.Function, base ssa.Value, fields map[string]bool, depth int) {
+	if depth > 8 {
+		return
+	}
+	switch x := base.(type) {
+	case *ssa.Slice:
+		if x.Low != nil {
+			for f := range indexFields(p, fn, x.Low, 0, map[ssa.Value]bool{}) {
+				fields[f] = true
+			}
+		}
+		addBaseFields(p, fn, x.X, fields, depth+1)
+	case *ssa.Phi:
+		for _, e := range x.Edges {
+			if e != base {
+				addBaseFields(p, fn, e, fields, depth+1)
+			}
+		}
+	case *ssa.Parameter:
+		// a row passed to a helper: follow to the callers
+		idx := -1
+		for i, prm := range fn.Params {
+			if prm == x {
+				idx = i
+			}
+		}
+		if idx < 0 {
+			return
+		}
+		if n := p.CallGraph().Nodes[fn]; n != nil {
+			for _, e := range n.In {
+				if e.Site == nil {
+					continue
+				}
+				args := e.Site.Common().Args
+				if idx < len(args) {
+					addBaseFields(p, e.Caller.Func, args[idx], fields, depth+1)
+				}
+			}
+		}
+	}
 }
